@@ -697,3 +697,6 @@ Definition driven_to_return (tr : list label) (fuel : nat) : bool :=
 (* ... with the variant itself as the fuel: exercises mu on the states the real operator went through *)
 Definition driven_within_mu (tr : list label) : bool :=
   match run init tr with Some s => returned (drive (mu s) s) | None => false end.
+(* where the real operator lingered: the shutdown has not begun in the model either *)
+Definition not_begun_after (tr : list label) : bool :=
+  match run init tr with Some s => negb (shutdown_begun s) && negb (returned s) | None => false end.
